@@ -55,6 +55,12 @@ func coinsPointwise(c *LibCtx, hint string, f func(d *Term) *Term) *Term {
 	return r
 }
 
+// coinsDenomsValid: every listed denomination of a Coins value passes sdk.ValidateDenom.
+func coinsDenomsValid(a *Term) *Term {
+	i := Bound("i", SInt)
+	return Forall([]*Term{i}, Implies(And(Ge(i, Num(0)), Lt(i, CoinsLen(a))), validDenom(DenomAt(a, i))), []*Term{DenomAt(a, i)})
+}
+
 func coinsAllGE0(a *Term) *Term {
 	d := Bound("d", SStr)
 	return Forall([]*Term{d}, Ge(Select(a, d), Num(0)), []*Term{Select(a, d)})
@@ -313,6 +319,8 @@ func init() {
 		// sorted / duplicate-free / positive: canonical by construction in this model; only sign can fail
 		err := freshErr(c, "coinsValidate")
 		c.st.Assume(Implies(Eq(err.Tag, Num(0)), coinsAllGE0(a[0].T)))
+		// Validate runs ValidateDenom on every entry
+		c.st.Assume(Implies(Eq(err.Tag, Num(0)), coinsDenomsValid(a[0].T)))
 		return err
 	})
 	reg(K+"Sort", func(c *LibCtx, a []*Val) *Val { return coinsVal(a[0].T, c.resType(0)) })
@@ -473,6 +481,7 @@ func init() {
 		d := Bound("d", SStr)
 		balA := Select(ghostT(c.st, "bal"), a[2].T)
 		c.st.Assume(Forall([]*Term{d}, And(Ge(Select(lk, d), Num(0)), Le(Select(lk, d), Select(balA, d))), []*Term{Select(lk, d)}))
+		c.st.Assume(coinsDenomsValid(lk)) // coins held by x/bank have valid denominations
 		return coinsVal(lk, c.resType(0))
 	})
 	reg(B+"BlockedAddr", func(c *LibCtx, a []*Val) *Val { return boolVal(Select(ghostT(c.st, "blocked"), a[1].T)) })
